@@ -6,16 +6,18 @@ VERIF = Path(__file__).resolve().parent.parent
 BASE_NOTE = ("Trusted: Lean 4.33 kernel, axioms propext/Classical.choice/Quot.sound only (audited each run), "
              "the hand-written model and the correspondence harness (generators, canonicalisation). ")
 
-CHECKS = {
-    "C10": dict(
-        text="Lean theorems over a model of batch_evaluate_function / array_split_chunksize / np.array_split for every "
-             "length, chunk size and pool size (concat∘split = id, chunk length ≤ chunksize, batchEval = map f, counter += n once); "
-             "model tied to the code by an exhaustive-grid correspondence against the real functions and Model.batch_evaluate_* "
-             "with a fake order-preserving pool (real fork pools in the thorough tier).",
-        note=BASE_NOTE + "Assumed: Pool.map preserves order; the user function is batch-consistent.",
-        technique="Lean 4 proof (induction over lists) + differential correspondence with the real functions",
-        ref="5/C10"),
-}
+def load_checks(props):
+    """Each harness/cXX.py carries its own MANIFEST dict(text, note, technique, ref)."""
+    import importlib
+    out = {}
+    for pid in props:
+        if not (VERIF / "harness" / f"{pid.lower()}.py").exists():
+            continue
+        m = importlib.import_module(f"harness.{pid.lower()}")
+        if getattr(m, "MANIFEST", None):
+            out[pid] = m.MANIFEST
+    return out
+
 
 NOT_BUILT = "check not built yet in this commit (planned, see DESIGN.md section 5)"
 NA = {
@@ -26,6 +28,7 @@ NA = {
 
 def main():
     props = [json.loads(l)["id"] for l in open(VERIF / "properties.jsonl")]
+    CHECKS = load_checks(props)
     checks = []
     for pid in props:
         if pid not in CHECKS:
@@ -39,7 +42,7 @@ def main():
             "replay_cmd_template": f"./check {pid} --replay {{path}}",
             "engine": "lean4-model+correspondence",
             "level_claimed": {"category": "proof", "text": c["text"], "design_ref": "DESIGN.md section " + c["ref"]},
-            "level_note": c["note"],
+            "level_note": BASE_NOTE + c["note"],
             "technique": c["technique"],
         })
     na = [{"property_id": p, "reason": NA.get(p, NOT_BUILT)} for p in props if p not in CHECKS]
